@@ -374,7 +374,7 @@ class C19:
         for l in dump.patvalues_bad:
             findings.append({'property': 'C19', 'key': {'kind': 'pattern_values', 'group': l.split()[1]}, 'err': 1, 'tol': 0,
                              'what': 'published d_exp pattern holds values other than identity/zero: ' + l, 'line': l})
-        per = (2 if quick else 14) * budget
+        per = (2 if quick else 60) * budget
         reqs, sig = [], set()
         for g in CATALOGUE:
             d = parse(g)
@@ -412,7 +412,7 @@ class C19:
                     which = 'd2' if 'd2r' in routine else 'd'
                     if not dump.pat[(g, which)]:
                         continue
-                    for k in range(1 if quick else 4):
+                    for k in range(1 if quick else 10):
                         nd_reqs.append(make_request(rng, g, prec, routine, dump.pat[(g, which)], 'generic', drop=rng.randrange(1000)))
         nd_dense = []
         check_requests(nd_reqs, dump.pat, nd_stats, findings, broken, samples, nd_dense, nd=True)
